@@ -175,6 +175,12 @@ impl World {
     }
 
     fn snapshot(&self) -> String {
+        self.snapshot_f(false)
+    }
+
+    /// `drop_empty_rel`: mid-race form — reverse-index entries that hold nothing are left out (an empty
+    /// entry is created and removed by whoever gets there first; the model does not track their `Arc`s)
+    fn snapshot_f(&self, drop_empty_rel: bool) -> String {
         let snap = pg::verif_snapshot();
         let mut m: Vec<((u64, u64), String)> = snap
             .map
@@ -213,6 +219,7 @@ impl World {
         let mut r: Vec<(u64, String)> = snap
             .relations
             .iter()
+            .filter(|(_, mem, gm, wm)| !drop_empty_rel || !(mem.is_empty() && gm.is_empty() && wm.is_empty()))
             .map(|(id, mem, gm, wm)| {
                 let k = self.k_of(*id);
                 let mut ws: Vec<u64> = wm.iter().map(|(s, _)| scope_back(s)).collect();
@@ -1191,6 +1198,11 @@ mod thr {
                 }
                 None => log.rec(format!("t:skip {point}"), "-"),
             }
+            // the window: every thread is parked outside the locks, so the four indexes and the six
+            // queries can be read consistently in the MIDDLE of the race (C11.conc_cross_index_windows,
+            // conc_queries_are_projections)
+            st.bump("thr_windows");
+            log.rec("t:win", format!("ev=- {} {}", w.snapshot_f(true), w.queries()));
         }
         for hb in hbs {
             let _ = hb.join();
